@@ -454,6 +454,25 @@ def extra_checks(cx: Ctx, proto, rng, quick):
                 cx.violation({"class": "write_error_not_surfaced", "nodes": "py"}, proto, vals, None, "ref.bin>py.b2b(fail_at=%d)" % p,
                              "sink failed after %d bytes but the relay reported success" % p, {"fail_at": p})
                 break
+    if cx.prop == "C01" and cx.cm is not None:
+        # the same for the C++ writer: a relay whose output stream stops accepting bytes must end in an exception
+        vals = sw.gen_values(env, ns, proto, rng.fork("cwerr"), items=(1, 4))
+        data = cx.codec.encode_stream(proto, ns, schema, vals)
+        nb = cx.cm.copyto[proto.name]
+        ps = [rng.randint(0, max(0, len(data) - 1)) for _ in range(2 if quick else 6)]
+        runs = [{"proto": proto.name, "op": "relay", "in_fmt": "binary", "out_fmt": "binary", "input": 0, "batch": [1] * nb, "fail_at": p} for p in ps]
+        for p, res in zip(ps, cx.cm.run_plan([data], runs, timeout=120)):
+            cx.bump("runs")
+            cx.bump("cpp_write_error_injected")
+            if res is None:
+                continue
+            if res.get("crashed"):
+                cx.violation({"class": "writer_crashed_on_write_error", "nodes": "cpp"}, proto, vals, None, "ref.bin>cpp.b2b(fail_at=%d)" % p, res.get("stderr", "")[-300:], {"fail_at": p})
+                break
+            if res["ok"]:
+                cx.violation({"class": "write_error_not_surfaced", "nodes": "cpp"}, proto, vals, None, "ref.bin>cpp.b2b(fail_at=%d)" % p,
+                             "the output stream failed after %d bytes but the relay reported success" % p, {"fail_at": p})
+                break
     if cx.prop == "C02":
         # header line: {"yardl":{"version":1,"schema":<schema as JSON value>}}
         vals = sw.gen_values(env, ns, proto, rng.fork("hdr"), finite=True, items=(0, 2))
